@@ -20,6 +20,8 @@ EXTENDS SortitionDefs
 CONSTANTS WMax,      \* largest stake of the enumeration
           GenMode,   \* "none" | "all"
           SeqDepth,  \* length of the generated Issue / Verify sequences
+          AliasDepth, \* length of the generated aliasing sequences
+          ScanSet,   \* "quick" | "thorough": which large-mean parameter triples are scanned for window points
           PrioHashes \* number of hashes per seat count of the priority cases
 
 Ps == {<<1, 10>>, <<1, 4>>, <<1, 2>>, <<9, 10>>, <<1, 1>>, <<99, 100>>, <<1, 1000>>}
@@ -60,12 +62,56 @@ BaseTup == [k |-> 1, sv |-> "A", ix |-> 1, st |-> 3]
 Near(t) == {t} \cup {[t EXCEPT !.k = 3 - t.k], [t EXCEPT !.ix = 3 - t.ix], [t EXCEPT !.st = 4 - t.st]}
                \cup { [t EXCEPT !.sv = v] : v \in SeedVars }
 
+(***************************************************************************)
+(* Window points for LARGE stakes within exact reach (regime-aware points  *)
+(* around the 0.99 switch-over and around the mean = 20 switch of the      *)
+(* search strategy): the seats of a parameter triple are scanned with the  *)
+(* exact recurrence (one state per seat, as in the monitor); for every CDF *)
+(* step (Cdf(j-1), Cdf(j)] that meets the window [lo, hi] (per mille) the  *)
+(* quarter points and the midpoint of the step are emitted, and for the    *)
+(* step that contains 0.99 also the targets halfway between Cdf(j-1) and   *)
+(* 0.99, at 0.99 itself and halfway between 0.99 and Cdf(j).  All of them  *)
+(* are strictly inside the step, far (relative to delta) from its ends:    *)
+(* the exact quantile j is the only admissible answer.                     *)
+(***************************************************************************)
+\* <<w, a, b, lo, hi>>: a GRID of stakes and probabilities with means 20 .. 60 (every combination in range: many skews); window
+\* around the 0.99 switch-over: [0.985, 0.991] (quick; the check drives a seeded sample of the triples) / [0.96, 0.995] (thorough)
+ScanWs == {500, 600, 700, 800, 900, 1000, 1200, 1500, 1800, 2000}
+ScanBs == {20, 25, 30, 32, 40, 48, 50, 60, 64, 75, 80, 90, 100, 120, 150, 200, 250, 300, 400, 500, 1000}
+ScanAs == {1, 2, 3, 5, 7, 9, 11, 13}
+Coprime(a, b) == \A d \in 2..a : ~(a % d = 0 /\ b % d = 0)
+ScanGrid == { <<w, a, b, IF ScanSet = "thorough" THEN 960 ELSE 985, IF ScanSet = "thorough" THEN 995 ELSE 991>> :
+                 w \in ScanWs, a \in ScanAs, b \in { x \in ScanBs : TRUE } }
+ScanHi == { p \in ScanGrid : 2 * p[2] < p[3] /\ Coprime(p[2], p[3]) /\ 20 * p[3] <= p[1] * p[2] /\ p[1] * p[2] <= 60 * p[3] }
+\* means 19.5 .. 20.5 (the m < 20 switch between forward and binary search), window [0.05, 0.995]
+ScanSwitch == {<<390, 1, 20, 50, 995>>, <<399, 1, 20, 50, 995>>, <<400, 1, 20, 50, 995>>, <<401, 1, 20, 50, 995>>, <<410, 1, 20, 50, 995>>}
+ScanSwitchMore == {<<1000, 39, 2000, 50, 995>>, <<1000, 41, 2000, 50, 995>>, <<975, 1, 50, 50, 995>>, <<1025, 1, 50, 50, 995>>, <<1999, 1, 100, 50, 995>>}
+ScanParams == ScanHi \cup ScanSwitch \cup (IF ScanSet = "thorough" THEN ScanSwitchMore ELSE {})
+
 Init == \/ \E w \in 1..WMax, p \in Ps : s = [w |-> w, a |-> p[1], b |-> p[2], j |-> 0]
         \/ s = [mode |-> "cred"]
         \/ s = [mode |-> "seq", hist |-> <<>>, issued |-> {}]
-NextPt == /\ "j" \in DOMAIN s
+        \/ s = [mode |-> "alias", ops |-> <<>>]
+        \/ \E p \in ScanParams : s = [mode |-> "scan", w |-> p[1], a |-> p[2], b |-> p[3], lo |-> p[4], hi |-> p[5], j |-> 0,
+                                        term |-> Term0(p[1], p[2], p[3]), cum |-> Term0(p[1], p[2], p[3]), prev |-> Zero]
+IsPt == DOMAIN s = {"w", "a", "b", "j"}
+IsScan == "term" \in DOMAIN s
+IsAlias == "ops" \in DOMAIN s
+NextPt == /\ IsPt
           /\ s.j < s.w
           /\ s' = [s EXCEPT !.j = s.j + 1]
+\* cum >= hi / 1000 : the scan is over
+ScanDone == BigLeq(BigMul(BigOfInt(s.hi), Den(s.w, s.b)), BigMul(BigOfInt(1000), s.cum))
+NextScan == /\ IsScan /\ s.j < s.w /\ ~ScanDone
+            /\ LET nt == NextTerm(s.term, s.j, s.w, s.a, s.b)[1] IN
+               s' = [s EXCEPT !.j = s.j + 1, !.term = nt, !.prev = s.cum, !.cum = BigAdd(s.cum, nt)]
+\* aliasing sequences: every call of a sequence goes through the SAME big.Int objects for stake and total stake, which the driver
+\* mutates in place between the calls; each call is judged by the values at call time.  tv / wv select the value of the total
+\* stake / the stake; a verify presents the seat count that is right for the values of this call ("now") or of the previous one
+AliasOps == { [fn |-> "sortition", tv |-> tv, wv |-> wv, cj |-> "now"] : tv \in {1, 2}, wv \in {1, 2} }
+            \cup { [fn |-> fn, tv |-> tv, wv |-> wv, cj |-> cj] : fn \in {"verify_sortition", "verify_priority"}, tv \in {1, 2}, wv \in {1, 2}, cj \in {"now", "prev"} }
+NextAlias == /\ IsAlias /\ Len(s.ops) < AliasDepth
+             /\ \E o \in AliasOps : s' = [s EXCEPT !.ops = Append(s.ops, o)]
 IsSeq == "hist" \in DOMAIN s
 Issue(t) == /\ IsSeq /\ Len(s.hist) < SeqDepth
             /\ s' = [s EXCEPT !.hist = Append(s.hist, [op |-> "issue", t |-> t]), !.issued = s.issued \cup {t}]
@@ -73,10 +119,9 @@ Verify(c, t) == /\ IsSeq /\ Len(s.hist) < SeqDepth /\ c \in s.issued
                 /\ s' = [s EXCEPT !.hist = Append(s.hist, [op |-> "verify", c |-> c, t |-> t])]
 NextSeq == \/ \E t \in Near(BaseTup) : Issue(t)
            \/ \E c \in (IF IsSeq THEN s.issued ELSE {}) : \E t \in Near(c) : Verify(c, t)
-Next == NextPt \/ NextSeq
+Next == NextPt \/ NextSeq \/ NextScan \/ NextAlias
 Spec == Init /\ [][Next]_vars
 
-IsPt == "j" \in DOMAIN s
 
 \* ---------------------------------------------------------------- (M) self-check of the definitions
 CdfTotal == IsPt => Cdf(s.w, s.w, s.a, s.b) = Den(s.w, s.b)
@@ -149,8 +194,34 @@ BigCases == { [kind |-> "C", fn |-> "priority", base |-> bs, pert |-> p, expect 
 PrioSeats == {0, 1, 2, 255, 256, 257, 300, 500, 511, 512, 513, 600}
 PrioCases == { [kind |-> "Q", hid |-> x, j |-> j] : x \in 1..PrioHashes, j \in PrioSeats }
 
+\* window points of the current step (Cdf(j-1), Cdf(j)] of a scan
+SPt(tag, h) == [kind |-> "P", tag |-> tag, h |-> BigToHex(h), w |-> s.w, a |-> s.a, b |-> s.b, ej |-> s.j]
+ScanPoints ==
+   LET D == Den(s.w, s.b)
+       K == BigOfInt(1000)
+       \* the step meets the window: prev < hi/1000 and lo/1000 <= cum
+       inWin == BigLt(BigMul(K, s.prev), BigMul(BigOfInt(s.hi), D)) /\ BigLeq(BigMul(BigOfInt(s.lo), D), BigMul(K, s.cum))
+       at(n, d) == Floor(BigMul(BigAdd(BigMul(BigOfInt(d - n), s.prev), BigMul(BigOfInt(n), s.cum)), HMax), BigMul(BigOfInt(d), D))  \* prev + n/d of the step
+       \* 0.99 strictly inside the step
+       has99 == BigLt(BigMul(BigOfInt(100), s.prev), BigMul(BigOfInt(99), D)) /\ BigLt(BigMul(BigOfInt(99), D), BigMul(BigOfInt(100), s.cum))
+       lo99 == Floor(BigMul(BigAdd(BigMul(BigOfInt(100), s.prev), BigMul(BigOfInt(99), D)), HMax), BigMul(BigOfInt(200), D))     \* (prev + 0.99) / 2
+       hi99 == Floor(BigMul(BigAdd(BigMul(BigOfInt(100), s.cum), BigMul(BigOfInt(99), D)), HMax), BigMul(BigOfInt(200), D)) IN   \* (0.99 + cum) / 2
+   IF ~inWin \/ s.term = Zero THEN {}
+   ELSE {SPt("win_mid", at(1, 2))} \cup (IF s.hi - s.lo < 100 THEN {SPt("win_q1", at(1, 4)), SPt("win_q3", at(3, 4)), SPt("win_low", at(1, 50))} ELSE {})
+        \cup (IF has99 THEN {SPt("win_below_switch", lo99), SPt("win_above_switch", hi99), SPt("win_at_switch", Switch),
+                              SPt("win_at_switch", BigAdd(Switch, Two(236)))} ELSE {})
+\* self-check: the points of a step are strictly inside it
+ScanPointsInside == IsScan => \A r \in ScanPoints : LET hh == BigOfHex(r.h) D == Den(s.w, s.b) IN
+                                  /\ Strict(hh, D, s.prev, s.cum, s.j) \/ r.tag = "win_at_switch"
+                                  /\ IsExact(hh, D, s.prev, s.cum, s.j) \/ r.tag = "win_at_switch"
+
+\* the VRF output must be unique per (key, message): cases for the malicious-prover part of the driver (encoding malleations)
+UniqueCases == { [kind |-> "U", k |-> k, sd |-> sd, ix |-> ix, st |-> st] : k \in {1, 2}, sd \in {1, 2}, ix \in {1, 2}, st \in {1, 3, 5} }
+
 Leaf == (GenMode = "all") =>
           IF IsPt THEN \A r \in Points : PrintT("@@J " \o ToJson(r))
+          ELSE IF IsScan THEN \A r \in ScanPoints : PrintT("@@J " \o ToJson(r))
           ELSE IF IsSeq THEN (Len(s.hist) = SeqDepth => PrintT("@@J " \o ToJson([kind |-> "S", ops |-> s.hist])))
-          ELSE \A r \in CredCases \cup TailCases \cup BigCases \cup PrioCases : PrintT("@@J " \o ToJson(r))
+          ELSE IF IsAlias THEN (Len(s.ops) = AliasDepth => PrintT("@@J " \o ToJson([kind |-> "A", aops |-> s.ops])))
+          ELSE \A r \in CredCases \cup TailCases \cup BigCases \cup PrioCases \cup UniqueCases : PrintT("@@J " \o ToJson(r))
 =============================================================================
